@@ -1,6 +1,8 @@
 #![allow(dead_code)]
 mod base;
 mod c01;
+mod c16;
+mod c13;
 mod c11;
 mod deleg;
 mod http;
@@ -20,6 +22,8 @@ fn main() {
     let rest = &args[2..].to_vec();
     match args[1].as_str() {
         "c01" => c01::run(rest),
+        "c16" => c16::run(rest),
+        "c13" => c13::run(rest),
         "c11" => c11::run(rest),
         "deleg" => deleg::run(rest),
         "c18" => http::run(rest),
